@@ -7,9 +7,13 @@ from vf import modes
 modes.activate("cext")
 props = [json.loads(l) for l in open(os.path.join(HERE, "properties.jsonl"))]
 checks, na = [], []
+ready = set(open(os.path.join(HERE, "tools", "ready.txt")).read().split())
 for p in props:
     pid = p["id"]
     fn = os.path.join(HERE, "vf", "props", pid.lower() + ".py")
+    if os.path.exists(fn) and pid not in ready:
+        na.append({"property_id": pid, "reason": "check exists but has not yet passed the registration gate (5-seed sweep on the unchanged tree + caught mutations); not claimed yet"})
+        continue
     if not os.path.exists(fn):
         na.append({"property_id": pid, "reason": "check not built yet in this round (planned in DESIGN.md section 4); not claimed"})
         continue
